@@ -1,0 +1,93 @@
+//go:build verif
+
+// Contracts for the collapsing dense stores, checked by /verif (govc). Comment-only: this file adds no code.
+
+package store
+
+// ---------------------------------------------------------------- lowest-collapsing store
+// Fold(V, e): everything below the edge e is folded into e.
+//@ vfun DFoldLow(s *DenseStore, e int, k int) real := k < e ? 0.0 : (k == e ? DCum(s, e) : DView(s, k))
+
+// Core invariant (holds also inside a range extension) and full invariant of the lowest-collapsing store.
+//@ pred CLCore(s *CollapsingLowestDenseStore) := DCore(as(s, *DenseStore)) && s.maxNumBins >= 1 && s.maxNumBins <= 2147483647 && len(s.bins) <= s.maxNumBins
+//@ pred CLCollapsedShape(s *CollapsingLowestDenseStore) := s.isCollapsed ==> (s.count > 0.0 && len(s.bins) == s.maxNumBins && s.offset == s.minIndex && s.maxIndex - s.minIndex + 1 == s.maxNumBins)
+//@ pred CLInv(s *CollapsingLowestDenseStore) := CLCore(s) && CLCollapsedShape(s) && (s.count == 0.0 ==> DEmptyState(as(s, *DenseStore)) && !s.isCollapsed) && (s.count > 0.0 ==> s.minIndex <= s.maxIndex && DView(as(s, *DenseStore), s.maxIndex) > 0.0 && (!s.isCollapsed ==> DView(as(s, *DenseStore), s.minIndex) > 0.0))
+
+//@ footprint CollapsingLowestDenseStore(s) := s, arr(s.bins)
+
+//@ func NewCollapsingLowestDenseStore
+//@   serves C05 C15
+//@   requires maxNumBins >= 1 && maxNumBins <= 2147483647
+//@   ensures result != nil && fresh(result) && CLInv(result) && result.count == 0.0 && result.maxNumBins == maxNumBins using ASumEmpty(contents(result.bins), 0, 0)
+
+// the array never grows beyond maxNumBins
+//@ func CollapsingLowestDenseStore.getNewLength
+//@   serves C05
+//@   requires in32(newMinIndex) && in32(newMaxIndex) && newMinIndex <= newMaxIndex && s.maxNumBins >= 1
+//@   ensures result == min(newMaxIndex - newMinIndex + 1 + 63, s.maxNumBins)
+
+//@ func CollapsingLowestDenseStore.Clear
+//@   serves C05 C15
+//@   requires CLInv(s)
+//@   ensures CLInv(s) && s.count == 0.0 && !s.isCollapsed && s.maxNumBins == old(s.maxNumBins) && arr(s.bins) == old(arr(s.bins))
+//@   ensures forall k int :: DView(as(s, *DenseStore), k) == 0.0
+//@   modifies s
+
+// adjust makes the window end at newMaxIndex and start at the edge e = max(newMinIndex, newMaxIndex-len+1):
+// everything below the edge is folded into the edge bin (no weight is lost).
+//@ fun CLEdge(s *CollapsingLowestDenseStore, lo int, hi int) int := max(lo, hi - len(s.bins) + 1)
+//@ fun DCumHi(s *DenseStore, k int) int := max(0, min(len(s.bins), k - s.offset + 1))
+//@ func CollapsingLowestDenseStore.adjust
+//@   serves C05
+//@   requires CLCore(s) && len(s.bins) >= 1 && s.minIndex <= s.maxIndex && DWindowIn(as(s, *DenseStore)) && in32(newMinIndex) && in32(newMaxIndex)
+//@   requires newMinIndex <= s.minIndex && s.maxIndex <= newMaxIndex
+//@   ensures CLCore(s) && DWindowIn(as(s, *DenseStore)) && s.count == old(s.count) && s.maxNumBins == old(s.maxNumBins) && len(s.bins) == old(len(s.bins))
+//@   ensures window: s.maxIndex == newMaxIndex && s.minIndex == old(CLEdge(s, newMinIndex, newMaxIndex))
+//@   ensures collapsed: (newMaxIndex - newMinIndex + 1 > len(s.bins) ==> s.isCollapsed && s.offset == s.minIndex) && (newMaxIndex - newMinIndex + 1 <= len(s.bins) ==> s.isCollapsed == old(s.isCollapsed))
+//@   ensures view: forall k int :: DView(as(s, *DenseStore), k) == old(DFoldLow(as(s, *DenseStore), CLEdge(s, newMinIndex, newMaxIndex), k))
+//@   ensures alias: arr(s.bins) == old(arr(s.bins)) || fresh(arr(s.bins))
+//@   modifies s, arr(s.bins)
+//@   loop 1 invariant s.minIndex <= i && i <= max(newMinIndex, s.minIndex) && n == ASum(contents(s.bins), s.minIndex - s.offset, i - s.offset)
+//@   loop 1 decreases newMinIndex - i
+// sums of the entry-state array: whole = below window + window; cumulative weight at the edge
+//@   hint ASumWindow(old(contents(s.bins)), 0, old(len(s.bins)), old(s.minIndex - s.offset), old(s.maxIndex - s.offset))
+//@   hint ASumSplit(old(contents(s.bins)), 0, old(DCumHi(as(s, *DenseStore), CLEdge(s, newMinIndex, newMaxIndex))), old(len(s.bins))), ASumZero(old(contents(s.bins)), old(DCumHi(as(s, *DenseStore), CLEdge(s, newMinIndex, newMaxIndex))), old(len(s.bins)))
+//@   hint ASumSplit(old(contents(s.bins)), 0, old(s.minIndex - s.offset), old(DCumHi(as(s, *DenseStore), CLEdge(s, newMinIndex, newMaxIndex)))), ASumZero(old(contents(s.bins)), 0, old(s.minIndex - s.offset))
+//@   hint ASumStep(old(contents(s.bins)), old(s.minIndex - s.offset), old(DCumHi(as(s, *DenseStore), CLEdge(s, newMinIndex, newMaxIndex)))), ASumStep(old(contents(s.bins)), 0, old(DCumHi(as(s, *DenseStore), CLEdge(s, newMinIndex, newMaxIndex))))
+//@   hint ASumZero(old(contents(s.bins)), 0, old(DCumHi(as(s, *DenseStore), CLEdge(s, newMinIndex, newMaxIndex))) - 1), ASumEmpty(old(contents(s.bins)), 0, 0)
+// the running sum of the collapse loop
+//@   hint ASumEmpty(contents(s.bins), s.minIndex - s.offset, s.minIndex - s.offset), ASumStep(contents(s.bins), s.minIndex - s.offset, i - s.offset), ASumStep(contents(s.bins), s.minIndex - s.offset, i - s.offset + 1)
+//@   hint ASumNonneg(contents(s.bins), s.minIndex - s.offset, newMinIndex - s.offset)
+// the current array against the entry array, around the collapsed segment [minIndex, newMinIndex)
+//@   hint ASumSplit(contents(s.bins), 0, old(s.minIndex - s.offset), len(s.bins)), ASumSplit(contents(s.bins), old(s.minIndex - s.offset), newMinIndex - s.offset, len(s.bins))
+//@   hint ASumSplit(old(contents(s.bins)), 0, old(s.minIndex - s.offset), len(s.bins)), ASumSplit(old(contents(s.bins)), old(s.minIndex - s.offset), newMinIndex - s.offset, len(s.bins))
+//@   hint ASumShift(old(contents(s.bins)), contents(s.bins), 0, old(s.minIndex - s.offset), 0), ASumShift(old(contents(s.bins)), contents(s.bins), newMinIndex - s.offset, len(s.bins), 0)
+//@   hint ASumZero(contents(s.bins), old(s.minIndex - s.offset), newMinIndex - s.offset), ASumShift(old(contents(s.bins)), contents(s.bins), 0, len(s.bins), 0)
+//@   hint ASumUpdate(contents(s.bins), 0, len(s.bins), newMinIndex - s.offset, s.bins[newMinIndex - s.offset] + n)
+// the single-bucket case: a fresh zero array with everything in its first bin
+//@   hint ASumUpdate(update(contents(s.bins), 0, 0.0), 0, len(s.bins), 0, s.count), ASumZero(update(contents(s.bins), 0, 0.0), 0, len(s.bins))
+
+// The content before the call, folded at edge e (two-state helper: e is a value of the current state).
+//@ vfun DFoldLowOld(s *DenseStore, e int, k int) real := k < e ? 0.0 : (k == e ? old(DCum(s, e)) : old(DView(s, k)))
+//@ pred CLShape(s *CollapsingLowestDenseStore) := s.isCollapsed ==> (len(s.bins) == s.maxNumBins && s.offset == s.minIndex && s.maxIndex - s.minIndex + 1 == s.maxNumBins)
+
+// extendRange makes the window reach newMaxIndex (and newMinIndex as far as maxNumBins allows); what falls
+// below the window is folded into its lowest bin; no weight is lost.
+//@ func CollapsingLowestDenseStore.extendRange
+//@   serves C05 C15
+//@   requires CLInv(s) && in32(newMinIndex) && in32(newMaxIndex) && newMinIndex <= newMaxIndex
+//@   ensures CLCore(s) && CLShape(s) && DWindowIn(as(s, *DenseStore)) && s.count == old(s.count) && s.maxNumBins == old(s.maxNumBins)
+//@   ensures window: s.maxIndex == max(newMaxIndex, old(s.maxIndex)) && s.minIndex == max(min(newMinIndex, old(s.minIndex)), s.maxIndex - len(s.bins) + 1)
+//@   ensures collapsed: s.isCollapsed == (old(s.isCollapsed) || s.minIndex > min(newMinIndex, old(s.minIndex)))
+//@   ensures view: forall k int :: DView(as(s, *DenseStore), k) == DFoldLowOld(as(s, *DenseStore), s.minIndex, k)
+//@   ensures alias: arr(s.bins) == old(arr(s.bins)) || fresh(arr(s.bins))
+//@   modifies s, arr(s.bins)
+//@   hint ASumZero(contents(s.bins), 0, len(s.bins))
+//@   hint ASumSplit(contents(s.bins), 0, old(len(s.bins)), len(s.bins)), ASumShift(old(contents(s.bins)), contents(s.bins), 0, old(len(s.bins)), 0), ASumZero(contents(s.bins), old(len(s.bins)), len(s.bins))
+// cumulative weight at the edge: the same in the entry array and in the zero-extended array
+//@   hint ASumSplit(contents(s.bins), 0, min(old(len(s.bins)), DCumHi(as(s, *DenseStore), CLEdge(s, newMinIndex, newMaxIndex))), DCumHi(as(s, *DenseStore), CLEdge(s, newMinIndex, newMaxIndex)))
+//@   hint ASumShift(old(contents(s.bins)), contents(s.bins), 0, min(old(len(s.bins)), DCumHi(as(s, *DenseStore), CLEdge(s, newMinIndex, newMaxIndex))), 0)
+//@   hint ASumZero(contents(s.bins), min(old(len(s.bins)), DCumHi(as(s, *DenseStore), CLEdge(s, newMinIndex, newMaxIndex))), DCumHi(as(s, *DenseStore), CLEdge(s, newMinIndex, newMaxIndex)))
+//@   hint ASumZero(contents(s.bins), 0, DCumHi(as(s, *DenseStore), CLEdge(s, newMinIndex, newMaxIndex))), ASumEmpty(old(contents(s.bins)), 0, 0)
+// no extension needed (the range fits): the cumulative weight at the new minimum is the weight of that bin
+//@   hint ASumZero(old(contents(s.bins)), 0, old(DCumHi(as(s, *DenseStore), min(newMinIndex, s.minIndex))) - 1), ASumStep(old(contents(s.bins)), 0, old(DCumHi(as(s, *DenseStore), min(newMinIndex, s.minIndex))))
